@@ -20,7 +20,7 @@ REAL = ['txtorcon.endpoints._create_socks_endpoint / TorClientEndpoint', 'txtorc
 STUB = ['transport/reactor (txsim.core)', 'Tor: control server with configuration store (txsim.simtor)', 'SOCKS servers on 9050/9150 (this file)']
 
 PROBES = {
-    'C18': ['socksport-none-configured', 'socksport-default', 'socksport-entries-1', 'socksport-entries-many', 'entry-with-options',
+    'C18': ['socksport-default', 'socksport-entries-1', 'socksport-entries-many', 'entry-with-options',
             'entry-host-port', 'entry-unix', 'requested-none', 'requested-present', 'requested-absent', 'port-added',
             'existing-port-used', 'api-helper', 'api-config-create', 'api-config-sync', 'fallback-first-ok', 'fallback-second-ok',
             'fallback-all-refused', 'fallback-socks-failure', 'fallback-timeout', 'segmented-delivery'],
